@@ -82,6 +82,13 @@ def step (_ : Unit) (ts : List String) : Unit × String :=
         | some c => (if c.parent == none then "R+" else "R!") ++ dumpNode c ++ " t=" ++ hex c.textOf
         | none => "null"
       | _, _ => "bad-op"
+    | ["desc", h] => match unhex h with
+      | some d =>
+        let r := decode d
+        if r.isNull then "null" else match descendSurvivor r with
+        | some c => (if c.parent == none then "R+" else "R!") ++ dumpNode c ++ " t=" ++ hex c.textOf
+        | none => "null"
+      | none => "bad-op"
     | ["dec", h] => match unhex h with
       | some d => render (decode d) | none => "bad-op"
     | "enc" :: f :: rest => match build rest with
